@@ -269,7 +269,12 @@ def gen_cases(rng, tier):
         lens = [rng.choice([rng.randrange(0, 80), rng.randrange(0, 600), 8 * rng.randrange(0, 60) + rng.randrange(-1, 2) % 8,
                             rng.randrange(0, 4097)]) for _ in range(1500)]
     for n in lens:
-        yield _case(rng, max(0, n), asan=asan)
+        c = _case(rng, max(0, n), asan=asan)
+        if tier == "thorough" and n > 1024 and n % 64 not in (0, 1, 7, 8, 9, 31, 33, 63) and rng.random() > 0.04:
+            # the list-based Lean models cost O(n^2) per call: above 1 KiB only the specification (O(n)) is evaluated
+            # for most lengths; the compiled routine, the Python reference and the oracle still see every length
+            c["nomodel"] = True
+        yield c
         if n <= 40 or tier == "search":
             yield _case(rng, max(0, n), mask=rng.choice(STRUCT_MASKS), asan=asan)
     # every structured mask on boundary lengths
@@ -321,16 +326,22 @@ def _val(v):
 
 
 def model_requests(case, impl):
+    if case.get("nomodel"):
+        return []
     return [line(ID, "model", bytes.fromhex(case["mask"]), payload(case))]
 
 
 def model_result(case, replies):
+    if case.get("nomodel"):
+        return {"model": "not evaluated for this length (specification only)"}
     st, vals = parse_reply(replies[0])
     assert st == "ok", replies[0]
     return {"c": _val(vals[0]), "py": _val(vals[1])}
 
 
 def impl_view(case, impl):
+    if case.get("nomodel"):
+        return {"model": "not evaluated for this length (specification only)"}
     return {"c": impl["c"], "py": impl["py"]}
 
 
@@ -390,6 +401,8 @@ def stats(case, impl):
     if "asan" in impl:
         out.append("asan:" + ("same" if impl["asan"] == "same" else "DIFF"))
     out.append("alignments:9")
+    out.append("lean-model:" + ("skipped" if case.get("nomodel") else "evaluated"))
+    out.append("native:" + (_state["how"] or "?")[:160])
     return out
 
 
